@@ -18,26 +18,27 @@ import (
 
 // Engine holds the loaded program and contracts.
 type Engine struct {
-	repo     string
-	prog     *ssa.Program
-	pkgs     []*packages.Package
-	spkgs    map[string]*ssa.Package
-	tpkgs    map[string]*types.Package
-	cs       *Contracts
-	strIDs   map[string]string
-	tagIDs   map[string]int
-	callOrd  map[string]map[ssa.Instruction]int
-	wsMemo   map[*ssa.Function]*WriteSet
-	wsBusy   map[*ssa.Function]bool
-	loopMemo map[*ssa.Function]map[*ssa.BasicBlock]int
-	fcFunc   map[*FuncContract]*ssa.Function
-	funcFC   map[*ssa.Function]*FuncContract
-	methFC   map[string]*FuncContract
-	loadErrs []string
+	repo          string
+	prog          *ssa.Program
+	pkgs          []*packages.Package
+	spkgs         map[string]*ssa.Package
+	tpkgs         map[string]*types.Package
+	errGlobals    map[*ssa.Global]bool
+	cs            *Contracts
+	strIDs        map[string]string
+	tagIDs        map[string]int
+	callOrd       map[string]map[ssa.Instruction]int
+	wsMemo        map[*ssa.Function]*WriteSet
+	wsBusy        map[*ssa.Function]bool
+	loopMemo      map[*ssa.Function]map[*ssa.BasicBlock]int
+	fcFunc        map[*FuncContract]*ssa.Function
+	funcFC        map[*ssa.Function]*FuncContract
+	methFC        map[string]*FuncContract
+	loadErrs      []string
 	contractFiles []string
-	macroSpecs bool
-	fieldIDs map[string]int
-	impureBusy map[*ssa.Function]bool
+	macroSpecs    bool
+	fieldIDs      map[string]int
+	impureBusy    map[*ssa.Function]bool
 }
 
 type WriteSet struct {
@@ -1368,4 +1369,71 @@ func (e *Engine) typeFromExpr(pkgPath string, ex ast.Expr) types.Type {
 		}
 	}
 	return nil
+}
+
+// initOnlyErrGlobal: g is a package-level variable of type error whose only assignment is its initialiser, a call of
+// errors.New / fmt.Errorf (so it is non-nil for the whole execution). Assignments are searched in the declaring
+// package; an exported variable reassigned from another package would escape this (none does in this repository).
+func (e *Engine) initOnlyErrGlobal(g *ssa.Global) bool {
+	if v, ok := e.errGlobals[g]; ok {
+		return v
+	}
+	if e.errGlobals == nil {
+		e.errGlobals = map[*ssa.Global]bool{}
+	}
+	ok := false
+	defer func() { e.errGlobals[g] = ok }()
+	pt, isPtr := g.Type().Underlying().(*types.Pointer)
+	if !isPtr || !types.Identical(pt.Elem(), types.Universe.Lookup("error").Type()) || g.Pkg == nil {
+		return false
+	}
+	inits, others := 0, 0
+	var visit func(fn *ssa.Function)
+	seen := map[*ssa.Function]bool{}
+	visit = func(fn *ssa.Function) {
+		if fn == nil || seen[fn] {
+			return
+		}
+		seen[fn] = true
+		for _, b := range fn.Blocks {
+			for _, ins := range b.Instrs {
+				if s, isStore := ins.(*ssa.Store); isStore && s.Addr == g {
+					good := false
+					if fn.Name() == "init" && fn.Pkg == g.Pkg {
+						if call, isCall := s.Val.(*ssa.Call); isCall {
+							if callee := call.Call.StaticCallee(); callee != nil {
+								switch callee.String() {
+								case "errors.New", "fmt.Errorf":
+									good = true
+								}
+							}
+						}
+					}
+					if good {
+						inits++
+					} else {
+						others++
+					}
+				}
+			}
+		}
+		for _, an := range fn.AnonFuncs {
+			visit(an)
+		}
+	}
+	for _, m := range g.Pkg.Members {
+		switch mm := m.(type) {
+		case *ssa.Function:
+			visit(mm)
+		case *ssa.Type:
+			for _, t := range []types.Type{mm.Type(), types.NewPointer(mm.Type())} {
+				ms := e.prog.MethodSets.MethodSet(t)
+				for i := 0; i < ms.Len(); i++ {
+					visit(e.prog.MethodValue(ms.At(i)))
+				}
+			}
+		}
+	}
+	ok = inits == 1 && others == 0
+	return ok
 }
